@@ -54,6 +54,19 @@ func (s *seen) flush(m *mon.M) {
 
 func payload(r *vrand.Rand, n int) []byte { return r.Bytes(n) }
 
+// lenClass keeps the grid's payload lengths exact and buckets the random ones of the thorough tier.
+func lenClass(n int) string {
+	switch {
+	case n <= 5 || n == 1000:
+		return fmt.Sprint(n)
+	case n < 1000:
+		return "6-999"
+	case n < 10000:
+		return "1001-9999"
+	}
+	return "10000+"
+}
+
 // ---------------------------------------------------------------------------------------------
 // audio
 
@@ -236,7 +249,7 @@ func checkAudio(m *mon.M, vc *detviol.Collector, sn *seen, ap flv.AudioPackager,
 		m.Guard("flv.audio.canonical", ref, func() {
 			in := append([]byte(nil), ref...)
 			g, err := ap.Decode(in)
-			m.Classf("c/audio/b0=%02x/hdr%d/tr%02x/len%d/ok%v", ref[0], a.HeaderLen(), a.Trait, c.plen, err == nil)
+			m.Classf("c/audio/b0=%02x/hdr%d/tr%02x/len%s/ok%v", ref[0], a.HeaderLen(), a.Trait, lenClass(c.plen), err == nil)
 			if err != nil {
 				m.Count("canonical_rejected", 1)
 				m.Count(fmt.Sprintf("canonical_rejected_audio_len%d", len(ref)), 1)
@@ -276,7 +289,7 @@ func checkAudio(m *mon.M, vc *detviol.Collector, sn *seen, ap flv.AudioPackager,
 			vc.Violationf(idx, "c10:encoded-body-empty:audio"+scope, rep, "Encode(%s) returned no bytes", audioFrameString(f))
 			return
 		}
-		m.Classf("f/audio/b0=%02x/hdr%d/tr%02x/len%d", b[0], len(b)-c.plen, a.Trait, c.plen)
+		m.Classf("f/audio/b0=%02x/hdr%d/tr%02x/len%s", b[0], len(b)-c.plen, a.Trait, lenClass(c.plen))
 		sn.add("audio_first_byte_formats_distinct", int(b[0]>>4))
 		if bytes.Equal(b, ref) {
 			m.Count("encoded_as_layout_says", 1) // observation, not asserted (the statement fixes only the codec id's place)
@@ -488,7 +501,7 @@ func checkVideo(m *mon.M, vc *detviol.Collector, sn *seen, vp flv.VideoPackager,
 		rep := map[string]interface{}{"case": idx, "direction": "canonical", "body_hex": mon.Hex(ref), "layout": v.String()}
 		m.Guard("flv.video.canonical", ref, func() {
 			g, err := vp.Decode(append([]byte(nil), ref...))
-			m.Classf("c/video/b0=%02x/hdr%d/tr%02x/len%d/ok%v", ref[0], v.HeaderLen(), v.PacketType, c.plen, err == nil)
+			m.Classf("c/video/b0=%02x/hdr%d/tr%02x/len%s/ok%v", ref[0], v.HeaderLen(), v.PacketType, lenClass(c.plen), err == nil)
 			if err != nil {
 				m.Count("canonical_rejected", 1)
 				m.Count(fmt.Sprintf("canonical_rejected_video_len%d", len(ref)), 1)
@@ -527,7 +540,7 @@ func checkVideo(m *mon.M, vc *detviol.Collector, sn *seen, vp flv.VideoPackager,
 			vc.Violationf(idx, "c10:encoded-body-empty:video"+scope, rep, "Encode(%s) returned no bytes", videoFrameString(f))
 			return
 		}
-		m.Classf("f/video/b0=%02x/hdr%d/tr%02x/len%d", b[0], len(b)-c.plen, v.PacketType, c.plen)
+		m.Classf("f/video/b0=%02x/hdr%d/tr%02x/len%s", b[0], len(b)-c.plen, v.PacketType, lenClass(c.plen))
 		sn.add("video_first_bytes_distinct", int(b[0]))
 		if bytes.Equal(b, ref) {
 			m.Count("encoded_as_layout_says", 1)
